@@ -161,22 +161,15 @@ func alphabet(pass string, cf cfg) (ops []op) {
 	return ops
 }
 
-// splitLevel is the history length at which a BFS of a pass is cut into parts.
-func splitLevel(pass string) int {
-	if pass == "S" {
-		return 3
-	}
-	return 2
-}
-
 // unit is one BFS: a pass on one configuration; with K > 1 only the states
-// reached by histories of length splitLevel(Pass) whose key hash is J modulo K are
-// extended (every part executes all shorter histories itself).
+// reached by histories of length L whose key hash is J modulo K are extended
+// (every part executes all shorter histories itself).
 type unit struct {
 	Pass  string
 	Cf    cfg
 	Depth int
 	J, K  int
+	L     int
 }
 
 // weight estimates the CPU seconds of a unit from measurements (seconds of one
@@ -197,13 +190,15 @@ func (u unit) weight() float64 {
 	for d := u.Depth; d < ref; d++ {
 		w /= growth
 	}
-	pre := 0.002
-	for i := 0; i < splitLevel(u.Pass); i++ {
-		pre *= ops
+	// Every part repeats the levels up to L.
+	pre := w
+	for d := u.L; d < u.Depth; d++ {
+		pre /= growth
 	}
 	if u.K <= 1 {
 		pre = 0
 	}
+	_ = ops
 	return w/float64(u.K) + pre
 }
 
@@ -230,15 +225,16 @@ func deal(us []unit, n int) (mine [][]unit) {
 }
 
 // plan lists the work units of a tier.  depth maps pass -> depth bound, split
-// maps pass -> number of parts one BFS is cut into.
-func plan(quick bool, depth, split map[string]int) (us []unit) {
+// maps pass -> number of parts one BFS is cut into, level maps pass -> history
+// length at which it is cut.
+func plan(quick bool, depth, split, level map[string]int) (us []unit) {
 	add := func(pass string, cf cfg) {
 		k := split[pass]
-		if k < 1 || depth[pass] <= splitLevel(pass) {
+		if k < 1 || depth[pass] <= level[pass] {
 			k = 1
 		}
 		for j := 0; j < k; j++ {
-			us = append(us, unit{Pass: pass, Cf: cf, Depth: depth[pass], J: j, K: k})
+			us = append(us, unit{Pass: pass, Cf: cf, Depth: depth[pass], J: j, K: k, L: level[pass]})
 		}
 	}
 	// Throttling does not read the session TTL: every (maxAttempts, blockDur).
@@ -257,11 +253,11 @@ func plan(quick bool, depth, split map[string]int) (us []unit) {
 	return us
 }
 
-func tierParams(quick bool) (depth, split map[string]int) {
+func tierParams(quick bool) (depth, split, level map[string]int) {
 	if quick {
-		return map[string]int{"T": 8, "S": 6, "X": 4}, map[string]int{"T": 3, "S": 6, "X": 3}
+		return map[string]int{"T": 8, "S": 6, "X": 4}, map[string]int{"T": 3, "S": 6, "X": 3}, map[string]int{"T": 2, "S": 3, "X": 2}
 	}
-	return map[string]int{"T": 11, "S": 9, "X": 5}, map[string]int{"T": 8, "S": 48, "X": 8}
+	return map[string]int{"T": 11, "S": 9, "X": 5}, map[string]int{"T": 8, "S": 32, "X": 8}, map[string]int{"T": 5, "S": 5, "X": 2}
 }
 
 // ---- reference model -----------------------------------------------------------
@@ -757,7 +753,7 @@ func run(c *lib.Ctx) {
 		_ = pprof.StartCPUProfile(f)
 		defer pprof.StopCPUProfile()
 	}
-	depth, split := tierParams(c.Quick())
+	depth, split, level := tierParams(c.Quick())
 	// Development switch: VERIF_C12_PLAN="T=5/1,S=6/2,X=0/1" (depth/split; depth 0 = skip the pass).
 	if s := os.Getenv("VERIF_C12_PLAN"); s != "" {
 		for _, f := range strings.Split(s, ",") {
@@ -769,7 +765,7 @@ func run(c *lib.Ctx) {
 		}
 	}
 	var units []unit
-	for _, u := range plan(c.Quick(), depth, split) {
+	for _, u := range plan(c.Quick(), depth, split, level) {
 		if u.Depth > 0 {
 			units = append(units, u)
 		}
@@ -809,7 +805,7 @@ func run(c *lib.Ctx) {
 		b := &lib.BFS[op]{C: c, Ops: alphabet(u.Pass, u.Cf), MaxDepth: u.Depth, Workers: 1, Confirm: true,
 			Exec: func(h []op) lib.Step {
 				st := exec(u.Cf, h)
-				if u.K > 1 && len(h) == splitLevel(u.Pass) && st.VKey == "" && st.Key != "" && lib.Hash(st.Key)%uint64(u.K) != uint64(u.J) {
+				if u.K > 1 && len(h) == u.L && st.VKey == "" && st.Key != "" && lib.Hash(st.Key)%uint64(u.K) != uint64(u.J) {
 					// Another part extends this state.
 					return lib.Step{Outcome: st.Outcome}
 				}
@@ -839,8 +835,8 @@ func run(c *lib.Ctx) {
 	for _, cf := range crossConfigs(c.Quick()) {
 		names = append(names, cf.String())
 	}
-	c.Note("plan", fmt.Sprintf("pass T (throttle, %d operations, depth %d) on maxAttempts{1,2,3} x blockDur{120,900 s} with TTL 3600 s; pass S (sessions, %d operations, depth %d) on TTL{3600,259200 s} with maxAttempts 2, blockDur 120 s; pass X (cross, %d operations, depth %d) on maxAttempts/blockSeconds/ttlSeconds %s; %d BFS runs over %d processes",
-		len(alphabet("T", cfg{Max: 1, Block: b2, TTL: t1h})), depth["T"], len(alphabet("S", cfg{Max: 1, Block: b2, TTL: t1h})), depth["S"], len(alphabet("X", cfg{Max: 1, Block: b2, TTL: t1h})), depth["X"], strings.Join(names, " "), len(units), shardN))
+	c.Note("plan", fmt.Sprintf("pass T (throttle, %d operations, depth %d) on maxAttempts{1,2,3} x blockDur{120,900 s} with TTL 3600 s; pass S (sessions, %d operations, depth %d) on TTL{3600,259200 s} with maxAttempts 2, blockDur 120 s; pass X (cross, %d operations, depth %d) on maxAttempts/blockSeconds/ttlSeconds %s; %d BFS runs over %d processes; parts per BFS T %d, S %d, X %d, cut at history length T %d, S %d, X %d",
+		len(alphabet("T", cfg{Max: 1, Block: b2, TTL: t1h})), depth["T"], len(alphabet("S", cfg{Max: 1, Block: b2, TTL: t1h})), depth["S"], len(alphabet("X", cfg{Max: 1, Block: b2, TTL: t1h})), depth["X"], strings.Join(names, " "), len(units), shardN, split["T"], split["S"], split["X"], level["T"], level["S"], level["X"]))
 	c.Note("alphabet", "bad-login(addr0: wrong password + proxy headers naming addr1 | addr1: unknown user), good-login(addr0|addr1), request(cookie0|1), logout(cookie0|1), advance{1,59,61,block-1,block+1,ttl-1,ttl+1,86400 s}, restart; cookie i = i-th session cookie issued in the history")
 }
 
@@ -899,7 +895,7 @@ func main() {
 				"bfs_runs":                      m.Counters["bfs_runs"],
 				"bfs_runs_cut_by_budget":        m.Counters["bfs_runs_cut_by_budget"],
 				"skipped_boundary_landings":     m.Counters["skipped_boundary_landings"],
-				"rule": "BFS over timed histories executed on the real handleLogin (behind the method/content-type wrapper), handleLogout (behind optionalAuth), an optionalAuth-wrapped probe handler, InitAuth and authRateLimiter under the virtual clock; restart = Close + InitAuth with a fresh rate limiter on the same sessions.db. Three passes (note_plan): T throttle-only alphabet on every (maxAttempts, blockDur); S session-only alphabet on every TTL; X the full alphabet on the listed configurations. Every BFS is cut into parts by the hash of the states reached at history length 2 (3 in pass S); parts are dealt to 16 processes. A state is (failed-attempt table, in-memory session table, sessions.db content, time of day, model), see the key function for what is dropped and why. Oracle after every step: status 429+Retry-After / 403 / 200+fresh cookie against the per-address (count, windowEnd) automaton; authentication of each cookie against two-sided session bounds (must before created+TTL, must not after logout / at or after lastUse+TTL / once seen expired, also across restart); no token in the session tables that no response delivered (a blocked login must not create a session). A clock step that would land exactly on a model boundary is not taken (skipped_boundary_landings). non-trivial = blocked login, 2nd+ or blocking failure, success that clears a record, request/logout with an issued cookie, restart with sessions",
+				"rule": "BFS over timed histories executed on the real handleLogin (behind the method/content-type wrapper), handleLogout (behind optionalAuth), an optionalAuth-wrapped probe handler, InitAuth and authRateLimiter under the virtual clock; restart = Close + InitAuth with a fresh rate limiter on the same sessions.db. Three passes (note_plan): T throttle-only alphabet on every (maxAttempts, blockDur); S session-only alphabet on every TTL; X the full alphabet on the listed configurations. Every BFS is cut into parts by the hash of the states reached at a fixed history length (note_plan); parts are dealt to 16 processes. A state is (failed-attempt table, in-memory session table, sessions.db content, time of day, model), see the key function for what is dropped and why. Oracle after every step: status 429+Retry-After / 403 / 200+fresh cookie against the per-address (count, windowEnd) automaton; authentication of each cookie against two-sided session bounds (must before created+TTL, must not after logout / at or after lastUse+TTL / once seen expired, also across restart); no token in the session tables that no response delivered (a blocked login must not create a session). A clock step that would land exactly on a model boundary is not taken (skipped_boundary_landings). non-trivial = blocked login, 2nd+ or blocking failure, success that clears a record, request/logout with an issued cookie, restart with sessions",
 			}
 		},
 		Assumptions: []string{
